@@ -42,6 +42,10 @@ type C12Rule struct {
 type C12Case struct {
 	Blocks []C12Block `json:"blocks"`
 	Rules  []C12Rule  `json:"rules"` // rule 0 is the bare @page rule declaring size and margin
+	// padding and bottom border of the page box (bare @page rule)
+	PagePadT    int `json:"page_pad_t,omitempty"`
+	PagePadB    int `json:"page_pad_b,omitempty"`
+	PageBorderB int `json:"page_border_b,omitempty"`
 }
 
 var c12Forced = map[string]bool{"page": true, "left": true, "right": true, "always": true, "recto": true, "verso": true}
@@ -63,6 +67,11 @@ func c12Gen(t *rapid.T, tier Tier) interface{} {
 			r.Margin = rapid.SampledFrom([]int{0, 8, 15}).Draw(t, "rm")
 		}
 		c.Rules = append(c.Rules, r)
+	}
+	if c.Rules[0].Size[1] >= 65 && rapid.IntRange(0, 3).Draw(t, "pagedeco") == 0 {
+		c.PagePadT = rapid.SampledFrom([]int{0, 3, 5}).Draw(t, "ppt")
+		c.PagePadB = rapid.SampledFrom([]int{0, 4, 10}).Draw(t, "ppb")
+		c.PageBorderB = rapid.SampledFrom([]int{0, 2, 5}).Draw(t, "pbb")
 	}
 	nb := rapid.IntRange(1, 8).Draw(t, "nblocks")
 	for i := 0; i < nb; i++ {
@@ -116,6 +125,9 @@ func c12HTML(c *C12Case) string {
 			fmt.Fprintf(&b, "margin:%dpx;", r.Margin)
 		}
 		b.WriteString("}")
+	}
+	if c.PagePadT+c.PagePadB+c.PageBorderB > 0 {
+		fmt.Fprintf(&b, "@page{padding:%dpx 0 %dpx;border-bottom:%dpx solid}", c.PagePadT, c.PagePadB, c.PageBorderB)
 	}
 	b.WriteString(`@page{@bottom-center{content:counter(page) "/" counter(pages);font:4px/1 Ahem;height:4px}}</style></head><body>`)
 	for i, bl := range c.Blocks {
@@ -361,6 +373,13 @@ func c12Check(ci interface{}) Verdict {
 			if math.Abs(mg-float64(m)) > tol {
 				return fail("geometry:margin", "page %d has margins %g %g %g %g, the matching @page rules give %d", i, p.mt, p.mr, p.mb, p.ml, m)
 			}
+		}
+		// the content box is what the margins, the padding and the border of the page box leave
+		if wantTop, wantBot := float64(m+c.PagePadT), float64(h-m-c.PagePadB-c.PageBorderB); math.Abs(p.contentTop-wantTop) > tol || math.Abs(p.contentBot-wantBot) > tol {
+			return fail("geometry:content-box", "the content box of page %d spans y=%g-%g, the @page rules give %g-%g", i, p.contentTop, p.contentBot, wantTop, wantBot)
+		}
+		if c.PagePadT+c.PagePadB+c.PageBorderB > 0 {
+			labels["page-padding-border"] = true
 		}
 		if len(c.Rules) > 1 {
 			labels["several-page-rules"] = true
